@@ -27,7 +27,7 @@ static void install(C& c, S& s)
     for (size_t i = 0; i < HCAP; ++i)
     {
         auto& e              = c.m_elements.m_data[i];
-        e.m_value            = s.u64();
+        e.m_value            = VAL_T(s.u64());
         e.m_expire_time      = i_tp(s.i64());
         e.m_lru_position.i   = s.u64();
         e.m_lru_position.l   = s.b() ? &c.m_lru_list : nullptr;
@@ -140,7 +140,7 @@ static void alpha(C& c, Abs& a)
             size_t slot = c.m_lru_list.m_pool[cur].value;
             auto&  e    = c.m_elements.m_data[slot];
             a.k[p]      = c.m_keyed_elements.m_pool[e.m_keyed_position.i].kv.first;
-            a.v[p]      = e.m_value;
+            a.v[p]      = val_u(e.m_value);
             a.d[p]      = tp_i(e.m_expire_time);
 #ifdef C_IS_UTLRU
             a.o2[p] = vf_list_pos(c.m_ttl_list, e.m_ttl_position.i, HCAP);
